@@ -71,6 +71,30 @@ func judgeState(prefix string, env envs.Environment, sa flows.SessionAssets, con
 	if err != nil {
 		return []sm.Problem{{Key: "harness:query", What: err.Error()}}
 	}
+	// the reference semantics (hand-written predicates over the contact's JSON, independent of the
+	// library's evaluator) decide; a disagreement of the library's evaluator is reported separately
+	cj, _ := json.Marshal(contact)
+	view, verr := cf.ViewOf(cj)
+	if verr != nil {
+		return []sm.Problem{{Key: "harness:view", What: verr.Error()}}
+	}
+	tz, ownTZ := env.Timezone(), false
+	if view.Timezone != "" {
+		if l, err := time.LoadLocation(view.Timezone); err == nil {
+			tz, ownTZ = l, true // the contact's own timezone overrides the environment's
+		}
+	}
+	for i := range cf.QueryGroups {
+		u := cf.QGroupUUID(i)
+		ref := contact.Status() == flows.ContactStatusActive && cf.RefMatches(i, view, tz)
+		// (the library evaluator is run in the plain session environment: comparable unless the contact
+		// has a timezone of its own)
+		if lib, ok := exp[u]; ok && lib != ref && !ownTZ {
+			ps = append(ps, sm.Problem{Key: prefix + ":query-evaluation-differs-from-reference:" + groupName(u),
+				What: fmt.Sprintf("query %q: contactql.EvaluateQuery says %v (with status) but the reference semantics say %v for contact %s", cf.QueryGroups[i].Query, lib, ref, cj)})
+		}
+		exp[u] = ref
+	}
 	got := membership(sa, contact)
 	var keys []string
 	for k := range exp {
@@ -185,14 +209,15 @@ func judgeDirect(c *mc.Ctx, w *cf.World, d *cf.Direct, count bool) []sm.Problem 
 	// A modifier that reports "not modified" does not re-evaluate groups; a contact whose *stored*
 	// membership was already wrong then stays wrong. The statement's clause is about what a modifier
 	// does, so a no-op on a wrongly stored contact is not judged (counted instead).
-	if !r.Modified {
+	// (a modifier that did change the contact is judged whatever it reports)
+	before, _ := cf.ViewOf(r.Before)
+	after, _ := cf.ViewOf(r.After)
+	if !r.Modified && cf.Diff(before, after) == "" {
 		if count {
 			c.Inc("direct_noop_not_judged")
 		}
 		return nil
 	}
-	before, _ := cf.ViewOf(r.Before)
-	after, _ := cf.ViewOf(r.After)
 	if count {
 		c.Inc("direct_judged")
 		if before.Status == "active" && after.Status != "active" {
@@ -231,7 +256,7 @@ func judgeEngine(c *mc.Ctx, ec *engineCase, count bool) []sm.Problem {
 		}
 		before, _ := cf.ViewOf(o.Before)
 		after, _ := cf.ViewOf(o.After)
-		contact := o.Session.Contact()
+		contact := o.Contact
 		if count {
 			c.Inc("engine_sprints")
 			if strings.Join(before.Groups, ",") != strings.Join(after.Groups, ",") {
@@ -249,7 +274,7 @@ func judgeEngine(c *mc.Ctx, ec *engineCase, count bool) []sm.Problem {
 			}
 		}
 		prefix := "engine:" + callClass
-		ps = append(ps, judgeState(prefix, o.Session.Environment(), o.Session.Assets(), contact, wasActive)...)
+		ps = append(ps, judgeState(prefix, o.Env, o.Session.Assets(), contact, wasActive)...)
 		ps = append(ps, judgeEvents(prefix, before, after, o.Events, o.EventTypes)...)
 	}
 	return ps
@@ -346,8 +371,8 @@ func init() {
 	mc.Register(&mc.Check{
 		ID:    "C06",
 		Level: "model_checking",
-		Rule: "invariant on every state of two exhaustively enumerated spaces on the real code, with 16 query-based groups (one per queryable property: name, language, tel/urn/scheme, created_on, last_seen_on, tickets, text/number/datetime/location fields, AND, OR): (A) starting contacts (incl. wrong stored membership, non-active) x the whole modifier alphabet applied through modifiers.Apply; " +
-			"(B) engine: all ordered pairs of 16 contact-changing actions with/without a wait between x {manual,msg} triggers x 24 starting contacts x histories {start, msg resume, msg resume with refreshed contact}. Oracle, recomputed by the harness with its own parse of each group's query: member(g) <=> active AND query matches; active->non-active leaves no static groups; net membership change per group == what contact_groups_changed events announce.",
+		Rule: "invariant on every state of two exhaustively enumerated spaces on the real code, with 23 query-based groups (one per queryable property: name, language, tel/urn/scheme, created_on, last_seen_on, tickets, text/number/datetime/location fields, AND, OR; != over properties with several values, the tokenized name match, a nested combination): (A) starting contacts (incl. wrong stored membership, non-active) x the whole modifier alphabet applied through modifiers.Apply; " +
+			"(B) engine: all ordered pairs of 16 contact-changing actions with/without a wait between x {manual,msg} triggers x 24 starting contacts x histories {start, msg resume, msg resume with refreshed contact}. Oracle: member(g) <=> active AND the query matches, where matching is decided by hand-written reference predicates over the contact JSON (the library evaluator, run on the harness's own parse of the query, must agree with them); active->non-active leaves no static groups; net membership change per group == what contact_groups_changed events announce.",
 		Assumptions: []string{"a modifier that reports not-modified is not judged on a contact whose stored membership was already wrong (no re-evaluation is promised for a no-op)", "the query is evaluated in the session's environment"},
 		Run:         run,
 		Replay:      replayFn,
